@@ -115,7 +115,8 @@ LEVEL_TEXT = ("Coq theorems, for all rule sets (any number of rules, names, tran
               "path with an equal transformed list (or the bare 304 that vouches for such a stored response - never for another tuple), or the "
               "response computed now for this very request; variant_of_the_cached_path spells that out in terms of the real request's headers and the "
               "rules of the path the response is cached under (route_keeps_method_and_headers: the looked-up URI differs from the request in path and "
-              "query only); variants_sorted (no two entries with equal lists); "
+              "query only); variants_sorted (no two entries with equal lists); items_built_with_rules_of_their_path (after every history every "
+              "cache item holds the rules of the path it is stored under and lists made by those rules - whichever site created it); "
               "lookup_refines_map / insert_refines_map / lookup_never_wrong_variant (rustc 1.95 binary_search_by on the vector = finite map; exact match "
               "even on an unsorted vector); vary_refines_map — the server's observations and handler invocations equal those of a finite-map server "
               "(page, transformed list) -> response for every history when GET/HEAD responses are cacheable under the path key without expiry; "
@@ -506,7 +507,8 @@ def wire(rng):
         hdrs = [(n, v) for k, (n, v) in enumerate(hdrs) if n not in [m for (m, _) in hdrs[:k]]]     # (rules with the same header)
         y = rng.random()
         if x < 0.06:
-            pass        # (a range of an error page: the run compares error pages by class, not by text)
+            # (a range of an error page: the run compares error pages by class, not by text)
+            hdrs = [(n, v) for (n, v) in hdrs if n != b"range"]
         elif y < 0.4:
             if not any(n == b"range" for (n, _) in hdrs):
                 hdrs.append((b"range", rng.choice(RANGES)))
@@ -1359,6 +1361,7 @@ def describe(c):
 _PINS = json.load(open(os.path.join(os.path.dirname(os.path.abspath(__file__)), "pins", "C05.json")))
 THEOREMS = [(n, _PINS[n]) for n in (
     "vary_served_for_equal_tuple", "variant_of_the_cached_path", "route_keeps_method_and_headers", "variants_sorted",
+    "items_built_with_rules_of_their_path",
     "lookup_refines_map", "insert_refines_map", "lookup_never_wrong_variant", "vary_refines_map", "computed_once_per_tuple",
     "default_applied", "vary_header_eq", "vary_lists_every_rule_header", "stale_position_safe", "vector_refines_assoc_list",
     "vary_cache_transparent", "wire_vary_advertised", "send_keeps_vary", "wire_not_modified_as_is",
